@@ -36,7 +36,13 @@ def main():
         return 2
     results = {}
     try:
+        only = sys.argv[sys.argv.index("--only") + 1].split(",") if "--only" in sys.argv else None
+        onlyprops = sys.argv[sys.argv.index("--props") + 1].split(",") if "--props" in sys.argv else None
+        if onlyprops:
+            props[:] = [p for p in props if p in onlyprops]
         for patch in sorted(d.glob("*.diff")):
+            if only and not any(o in patch.name for o in only):
+                continue
             sh("git checkout -- .", cwd=wt)
             rc, o = sh(f"git apply {patch}", cwd=wt)
             if rc:
